@@ -28,6 +28,8 @@ pub enum Case {
     RealUnixPath { len: usize },
     RealUnixAbstract { len: usize },
     RealUnixUnnamed,
+    /// Real kernel: the sender address recvfrom(2) reports for a datagram (0: unnamed sender, 1: path, 2: abstract).
+    RealUnixSender { kind: u8 },
     /// Real kernel, end to end through a10's own (pointer, length): bind with what
     /// as_ptr returns, getsockname, init.
     EndToEndUnix { kind: u8, len: usize },
@@ -267,6 +269,22 @@ fn a10_sockname<A: SocketAddress>(fd: i32) -> (A, u32) {
     (unsafe { A::init(st, l) }, l)
 }
 
+/// The sender address of the next datagram on `fd`, with the length recvfrom(2) reports.
+fn a10_recvfrom_name<A: SocketAddress>(fd: i32, fill: &[u8]) -> (A, u32) {
+    let mut st = MaybeUninit::<A::Storage>::uninit();
+    let (ptr, len) = unsafe { A::as_mut_ptr(&mut st) };
+    // Whatever the kernel does not write stays "uninitialised": any content is possible,
+    // e.g. what an earlier use of the same memory left there.
+    for i in 0..len as usize {
+        unsafe { ptr.cast::<u8>().add(i).write(fill[i % fill.len()]) };
+    }
+    let mut l: libc::socklen_t = len;
+    let mut buf = [0u8; 8];
+    let r = unsafe { libc::recvfrom(fd, buf.as_mut_ptr().cast(), buf.len(), 0, ptr.cast(), &mut l) };
+    assert!(r >= 0, "recvfrom failed");
+    (unsafe { A::init(st, l) }, l)
+}
+
 fn run_real_ip(v6: bool, out: &mut Vec<Violation>) {
     if v6 {
         let s = match std::net::UdpSocket::bind("[::1]:0") {
@@ -392,6 +410,28 @@ pub fn run(case: &Case) -> Vec<Violation> {
                 out.push(v("real-kernel/unix-unnamed", format!("unbound socket: a10 decodes {got:?}")));
             }
         }
+        Case::RealUnixSender { kind } => {
+            use std::os::fd::AsRawFd;
+            use std::os::linux::net::SocketAddrExt;
+            let rx_name = format!("a10mc-rx-{}-{kind}", std::process::id());
+            let rx = std::os::unix::net::UnixDatagram::bind_addr(&UnixAddr::from_abstract_name(rx_name.as_bytes()).unwrap()).unwrap();
+            let dir = scratch(&format!("snd{kind}"));
+            let tx = match kind {
+                0 => std::os::unix::net::UnixDatagram::unbound().unwrap(),
+                1 => std::os::unix::net::UnixDatagram::bind(dir.join("tx")).unwrap(),
+                _ => std::os::unix::net::UnixDatagram::bind_addr(&UnixAddr::from_abstract_name(format!("a10mc-tx-{}", std::process::id()).as_bytes()).unwrap()).unwrap(),
+            };
+            let want = tx.local_addr().unwrap();
+            for fill in [&[0xAAu8][..], &[0u8][..], b"stale-name\0", b"\0old-abstract"] {
+                tx.send_to_addr(b"x", &rx.local_addr().unwrap()).unwrap();
+                let (got, len) = a10_recvfrom_name::<UnixAddr>(rx.as_raw_fd(), fill);
+                if !unix_eq(&got, &want) {
+                    out.push(v(&format!("real-kernel/unix-sender/{}", ["unnamed", "path", "abstract"][*kind as usize]), format!("a datagram from {want:?}: recvfrom(2) reports a name of length {len}; with the address memory pre-filled with {:?} a10 decodes {got:?}", String::from_utf8_lossy(fill))));
+                    break;
+                }
+            }
+            let _ = std::fs::remove_dir_all(&dir);
+        }
         Case::EndToEndUnix { kind, len } => match kind {
             0 => {
                 let dir = scratch(&format!("e{len}"));
@@ -462,5 +502,8 @@ pub fn cases(quick: bool) -> Vec<Case> {
         }
     }
     v.push(Case::RealUnixUnnamed);
+    for kind in 0..3u8 {
+        v.push(Case::RealUnixSender { kind });
+    }
     v
 }
